@@ -1,6 +1,6 @@
 #!/bin/bash
 # demo part of the confirmation: fails with the change, passes without
-id=$1; wt=/tmp/mut/$id; out=$wt/CONFIRM.log
+id=$1; wt=${MUTROOT:-/tmp/mut}/$id; out=$wt/CONFIRM.log
 cd $wt || exit 2
 demo_cmd=$(python3 -c "import json;print(json.load(open('$wt/MUTANT/meta.json'))['demo_cmd'])")
 demo_cmd=${demo_cmd#cd $wt && }
